@@ -358,9 +358,9 @@ pub fn run(r: &mut Runner) -> &'static str {
               non-trivial = at least 2 items, or an error after at least 1 item, or a value of >= 256 bytes; distinct by SipHash of the section"
         .into();
     let n = r.n(200_000, 3_000_000);
-    r.random("c11.slices", n, 160, &gen_slice, &judge_slice);
+    r.random("c11.slices", n, 160, &gen_slice, &|x: &Vec<u8>, st: &mut Stats| crate::engine::in_arena(x, |v| judge_slice(v, st)));
     let n = r.n(100_000, 2_000_000);
-    r.random("c11.headers", n, 200, &crate::props::c14::gen_case, &judge_header);
+    r.random("c11.headers", n, 200, &crate::props::c14::gen_case, &|x: &Vec<u8>, st: &mut Stats| crate::engine::in_arena(x, |v| judge_header(v, st)));
 
     let maxlen: u32 = if r.quick() { 7 } else { 9 };
     let work = |shard: usize, nshards: usize, st: &mut Stats, stop: &AtomicBool| -> Option<(Vec<u8>, Fail)> {
